@@ -74,7 +74,10 @@ func ChildMain(c *Check, args []string) {
 	}
 	runtime.GOMAXPROCS(1)
 	var fam *Family
-	for _, f := range c.Families("thorough") {
+	if tier == "" {
+		tier = "quick"
+	}
+	for _, f := range c.Families(tier) {
 		if f.Name == famName {
 			fam = f
 		}
@@ -250,7 +253,19 @@ func runIsolated(c *Check, f *Family, tier string, res *result, deadline time.Ti
 					cc := exec.Command(exe, c.ID, tier, "--family", f.Name, "--shard", "0/1", "--only", strconv.FormatInt(idx, 10), "--out", filepath.Join(tmp, fmt.Sprintf("confirm-%d-%d", w, k)))
 					var eb bytes.Buffer
 					cc.Stderr = &tailWriter{buf: &eb, max: 1 << 16, headOnly: true}
-					if err := cc.Run(); err != nil {
+					killed := false
+					ct := time.AfterFunc(max(time.Until(deadline), 30*time.Second), func() { killed = true; cc.Process.Kill() })
+					err := cc.Run()
+					ct.Stop()
+					if killed {
+						// not a verdict: the confirmation did not finish within the budget
+						mu.Lock()
+						complete = false
+						mu.Unlock()
+						died = -1
+						break
+					}
+					if err != nil {
 						died++
 						last = fmt.Sprintf("%v: %s", err, eb.String())
 					}
